@@ -304,6 +304,13 @@ def scenarios(tier: str) -> tuple[list[C02Scenario], list[C02Scenario], list[C02
                         dict(id='u1', on='update', script=s1, backoff=3), dict(id='u2', on='update', script=s2, backoff=3)]
             plain.append(C02Scenario(handlers=handlers, lifecycle=lc, user=base_user + [(20.0, 'spec', 'a', 2)], settings=settings, horizon=45.0,
                                      delays=False, early_user=False, time_dev=False))
+    # 10. a parent that runs its sub-handlers explicitly (kopf.execute()) and then fails / succeeds on its own, followed by a second cycle
+    for sp, sa in itertools.product((['perm'], ['temp', 'perm'], ['arb', 'ok'], ['ok']), (['ok'], ['temp', 'ok'])):
+        for lc in ('asap', 'all_at_once'):
+            handlers = [dict(id='p', on='create', script=sp, backoff=3), dict(id='p2', on='update', script=['ok'], backoff=3)]
+            subs = {'p': [dict(id='s1', script=sa), dict(id='s2', script=['ok'])], 'p2': [dict(id='s1', script=['ok'])]}
+            plain.append(C02Scenario(handlers=handlers, subs=subs, execute_first=['p'], lifecycle=lc, user=base_user + [(30.0, 'spec', 'a', 2)], settings=settings,
+                                     horizon=60.0, delays=False, early_user=False, time_dev=False))
     # 6b. ... and the resume handler has sub-handlers: one recorded as done, its sibling between retries, when the change supersedes the cause
     for lc in ('asap', 'all_at_once'):
         for sb in (['temp', 'ok'], ['temp', 'temp', 'ok']):
